@@ -335,7 +335,7 @@ def run_depth(prop, tier, workdir):
     sizes = [1000, 100000, 1000000] if tier == "quick" else [1000, 10000, 100000, 1000000, 3000000]
     ops = ["build", "drop", "parse", "parse_datum", "print", "display", "to_vec", "into_vec", "iter", "into_iter",
            "index", "is_list", "clone", "eq", "datum_clone", "datum_eq", "datum_drop", "datum_iter", "to_value", "from_value",
-           "datum_fail", "datum_fail_bracket", "datum_fail_token", "value_fail", "datum_iter_fail", "datum_cdr_owned", "alist"]
+           "datum_fail", "datum_fail_bracket", "datum_fail_token", "value_fail", "datum_iter_fail", "datum_cdr_owned", "alist", "drop_unwinding"]
     if prop == "C03":
         ops = []
     jobs = []
